@@ -35,6 +35,11 @@ func (c *momentumPool) AddMomentumTransaction(insertLocker sync.Locker, transact
 
 	momentum := transaction.Momentum
 
+	// only on top of the frontier: the ledger database does not report a commit on any other parent
+	if frontier := c.getFrontierStore().Identifier(); momentum.Previous() != frontier {
+		return errors.Errorf("can't insert momentum %v. previous doesn't match with current frontier %v", momentum.Identifier(), frontier)
+	}
+
 	if err := c.chainManager.Add(transaction); err != nil {
 		return err
 	}
